@@ -200,13 +200,14 @@ Lemma dec_start_face : forall nfz s a, DP.W NC maxv (D.nfaces s) s -> NC = 3 * n
   let vx := D.c2v s (D.next_c b) in let lx := D.vc s vx in let c := D.next_c lx in
   0 <= ln < 3 * f -> 0 <= lx < 3 * f -> a <> b -> a <> c -> b <> c ->
   D.copp s a = -1 -> D.copp s b = -1 -> D.copp s c = -1 ->
+  D.c2v s (D.prev_c a) = D.c2v s (D.next_c c) ->
   exists s', D.start_face NC maxv nfz s a = D.Ok s' /\
     D.copp s' = D.upd (D.upd (D.upd (D.upd (D.upd (D.upd (D.copp s) (3 * f) a) a (3 * f)) (3 * f + 1) b) b (3 * f + 1)) (3 * f + 2) c) c (3 * f + 2) /\
     D.c2v s' = D.upd (D.upd (D.upd (D.c2v s) (3 * f) vx) (3 * f + 1) (D.c2v s (D.next_c c))) (3 * f + 2) vn /\
     D.nv s' = D.nv s /\ D.stack s' = D.stack s /\ D.vc s' = D.vc s /\
     D.events s' = D.events s /\ D.splits s' = D.splits s /\ D.invalid s' = D.invalid s /\ D.nfaces s' = f + 1.
 Proof.
-  intros nfz s a HW HNC Hlt Ha f vn ln b vx lx c Hln Hlx Nab Nac Nbc Fa Fb Fc.
+  intros nfz s a HW HNC Hlt Ha f vn ln b vx lx c Hln Hlx Nab Nac Nbc Fa Fb Fc Hvw.
   pose proof (DP.w_nf _ _ _ _ HW) as Hnf. pose proof (DP.w_nv _ _ _ _ HW) as Hnv. fold f in Hnf, Ha.
   pose proof (DP.next_c_rng a f Ha) as Hna.
   assert (Hb : 0 <= b < 3 * f) by (apply DP.next_c_rng; auto).
@@ -215,11 +216,13 @@ Proof.
   pose proof (DP.w_vr _ _ _ _ HW _ Hna) as Hvn. fold vn in Hvn.
   pose proof (DP.w_vr _ _ _ _ HW _ Hnb) as Hvx. fold vx in Hvx.
   pose proof (DP.w_vr _ _ _ _ HW _ Hnc) as Hvp.
+  pose proof (DP.prev_c_rng a f Ha) as Hpa.
   unfold D.start_face. fold f. replace (f >=? nfz) with false by lia.
   unfold D.vertex, D.lmc. fwd. fold vn. fwd. fold ln. fold b. fwd. fold vx. fwd. fold lx. fold c.
   replace ((a =? b) || (a =? c) || (b =? c)) with false by lia.
   unfold D.all_free, D.opposite. fwd. rewrite Fa. cbn [Z.eqb D.bind]. fwd. rewrite Fb. cbn [Z.eqb D.bind]. fwd. rewrite Fc. cbn [Z.eqb D.bind negb].
-  fwd. unfold D.set_opps, D.set_opp, D.map_cv. fwd.
+  fwd. rewrite Hvw, Z.eqb_refl. cbn [negb].
+  unfold D.set_opps, D.set_opp, D.map_cv. fwd.
   rewrite !(DP.upd_other _ _ _ _ (3 * f)) by lia. rewrite DP.upd_same.
   unfold D.set_hole. fwd.
   rewrite !(DP.upd_other _ _ _ _ (3 * f + 1)) by lia. rewrite DP.upd_same. fwd.
@@ -1229,6 +1232,15 @@ Proof.
       assert (Eb1 : D.next_c (dco jb rb0) = dco jb rl1) by (rewrite dco_next by lia; reflexivity).
       assert (Eb2 : D.next_c (dco jc rc0) = dco jc rl2) by (rewrite dco_next by lia; reflexivity).
       assert (Enb : D.next_c (dco jb rl1) = dco jb ((rl1 + 1) mod 3)) by (rewrite dco_next by lia; reflexivity).
+      (* around the third vertex: Vertex(Previous(corner_a)) = Vertex(Next(corner_c)) *)
+      assert (Ew : D.c2v d (dco j ((0 + 2) mod 3)) = D.c2v d (dco jc ((rl2 + 1) mod 3))).
+      { destruct (fan_walk m d (eco m 1) ltac:(lia) HS HL) as (j1 & r1 & j2 & r2 & H1 & H2 & H3 & H4 & Esr & Esl & Ev); auto.
+        { rewrite X1. apply next_lt; auto. } { rewrite eco_face. apply (Qrng m Hm). }
+        unfold swing_right in Esr. rewrite X1, prev_next, E0 in Esr. inversion Esr as [Q1].
+        unfold swing_left in Esl. rewrite X1, next_next, <- X2, E2 in Esl. inversion Esl as [Q2].
+        assert (Q1' : eco j 2 = eco j1 r1) by exact Q1. apply eco_inj in Q1'; try lia. destruct Q1' as [<- <-].
+        assert (Q2' : eco jc ((rl2 + 1) mod 3) = eco j2 r2) by (rewrite eco_next by auto; exact Q2).
+        apply eco_inj in Q2'; try lia. destruct Q2' as [<- <-]. exact Ev. }
       destruct (dec_start_face NC maxv (Z.of_nat (length Q)) d (dco j 0) HW' HNC')
         as (d' & Es & A1 & A2 & A3 & A4 & A5 & A6 & A7 & A8 & A9).
       * rewrite Hnf. lia.
@@ -1241,6 +1253,7 @@ Proof.
       * apply (Free j 0%nat 0%nat); auto.
       * rewrite Ena, V1, Eb1. apply (Free jb rl1 1%nat); auto.
       * rewrite Ena, V1, Eb1, Enb, V2, Eb2. apply (Free jc rl2 2%nat); auto.
+      * rewrite Ena, V1, Eb1, Enb, V2, Eb2. rewrite (dco_prev j 0), (dco_next jc rl2) by lia. exact Ew.
       * rewrite Ena, V1, Eb1, Enb, V2, Eb2 in A1, A2. rewrite Hnf in A1, A2, A9.
         replace (3 * Z.of_nat m + 2) with (dco m 2) in A1, A2 by (unfold dco; lia).
         replace (3 * Z.of_nat m + 1) with (dco m 1) in A1, A2 by (unfold dco; lia).
@@ -1253,15 +1266,7 @@ Proof.
         assert (Vx : 0 <= D.c2v d (dco jb ((rl1 + 1) mod 3)) < D.nv d) by (apply (DP.w_vr _ _ _ _ HW); unfold dco; lia).
         assert (HL' : LAB (S m) d').
         { apply (LAB_start m d d' j jb rl1 jc rl2); auto.
-          - (* around the third vertex *)
-            destruct (fan_walk m d (eco m 1) ltac:(lia) HS HL) as (j1 & r1 & j2 & r2 & H1 & H2 & H3 & H4 & Esr & Esl & Ev); auto.
-            { rewrite X1. apply next_lt; auto. } { rewrite eco_face. apply (Qrng m Hm). }
-            unfold swing_right in Esr. rewrite X1, prev_next, E0 in Esr. inversion Esr as [Q1].
-            unfold swing_left in Esl. rewrite X1, next_next, <- X2, E2 in Esl. inversion Esl as [Q2].
-            assert (Q1' : eco j 2 = eco j1 r1) by exact Q1. apply eco_inj in Q1'; try lia. destruct Q1' as [<- <-].
-            assert (Q2' : eco jc ((rl2 + 1) mod 3) = eco j2 r2) by (rewrite eco_next by auto; exact Q2).
-            apply eco_inj in Q2'; try lia. destruct Q2' as [<- <-].
-            rewrite (dco_prev j 0), (dco_next jc rl2) by lia. exact Ev.
+          - rewrite (dco_prev j 0), (dco_next jc rl2) by lia. exact Ew.
           - replace (D.prev_c (dco jb rl1)) with (dco jb rb0) by (rewrite <- Eb1; symmetry; apply prev_next_dco).
             rewrite <- V1. rewrite Ena. apply (DC.j_vc _ _ HJ); auto. rewrite V1. unfold dco. lia.
           - replace (D.prev_c (dco jc rl2)) with (dco jc rc0) by (rewrite <- Eb2; symmetry; apply prev_next_dco).
